@@ -47,6 +47,9 @@ class C12(framework.PropertyCheck):
             ops.append(['load', rng.choice(TIDS)])
             for _k in range(L):
                 ops.append(list(rng.choice(ALPHABET)))
+            if rng.random() < 0.15:
+                # a request that names a trace that is not loaded is refused (it ends the history: the language has no handler)
+                ops.append(['stepmissing', rng.choice([['nosuch'], ['t0', 'nosuch'], ['nosuch', 'tB']]), rng.choice([1, -1])])
             yield {'ops': ops}
         if tier == 'thorough':
             import itertools
@@ -104,6 +107,11 @@ class C12(framework.PropertyCheck):
                 if ok:
                     loaded[t] = ni
                 plan.append((('eval', 'eorg', f'(step "{t}" {op[2]})'), ('val', ('B', ok))))
+            elif k == 'stepmissing':
+                if not loaded or any(t != 'nosuch' and t not in loaded for t in op[1]):
+                    continue
+                plan.append((('eval', 'eorg', '(step ' + ' '.join(f'"{t}"' for t in op[1]) + f' {op[2]})'), ('fail',)))
+                break
             elif k == 'stepids':
                 if any(t not in loaded for t in op[1]):
                     continue
@@ -155,7 +163,7 @@ class C12(framework.PropertyCheck):
             if exp[0] == 'ok' and o[0] != 'ok':
                 return {'what': 'operation failed', 'step': step[:2], 'obs': o}
             if exp[0] == 'fail' and o[0] != 'err':
-                return {'what': 'failing load did not raise', 'step': step[:2], 'obs': o}
+                return {'what': 'a request that must be refused (failing load, step on a trace that is not loaded) did not raise', 'step': step[:3] if step[0] == 'eval' else step[:2], 'obs': o}
             if exp[0] == 'val':
                 if o[0] != 'ok' or o[1] != exp[1]:
                     return {'what': 'observation differs from the dictionary-of-traces reference', 'k': k, 'query': step[2][:300],
